@@ -225,35 +225,37 @@ func c17ServerCase(cid int, gitlab bool, path, diff string, budget int, pend []m
 	for i, rd := range rounds {
 		rs[i] = fmt.Sprintf("(%s, %s, %s)", coqNat(rd.Posts), coqNat(rd.Deletes), coqList(rd.View))
 	}
-	return fmt.Sprintf("Server %s %s [{| gd_old_path := %s; gd_new_path := %s; gd_diff := %s |}] %s %s %s %s",
-		coqN(cid), coqBool(gitlab), coqStr(path), coqStr(path), coqStr(diff), coqNat(budget), coqList(ps), coqList(store0), coqList(rs))
+	ctor := "ServerGH"
+	if gitlab {
+		ctor = "ServerGL"
+	}
+	return fmt.Sprintf("%s %s [{| gd_old_path := %s; gd_new_path := %s; gd_diff := %s |}] %s %s %s %s",
+		ctor, coqN(cid), coqStr(path), coqStr(path), coqStr(diff), coqNat(budget), coqList(ps), coqList(store0), coqList(rs))
 }
 
-func glView(notes []glNote) []string {
+// glRaw: EVERYTHING the fake GitLab holds, as Model.Platforms.gl_note terms (a line the API omits - 0 here - is None)
+func glRaw(notes []glNote) []string {
+	optLine := func(l int) string {
+		if l == 0 {
+			return "None"
+		}
+		return "(Some " + coqZ(int64(l)) + ")"
+	}
 	var out []string
 	for _, nn := range notes {
-		if !nn.HasPos || nn.AuthorID != 7 || nn.System {
-			continue
+		pos := "None"
+		if nn.HasPos {
+			pos = fmt.Sprintf("(Some {| gp_old_path := %s; gp_new_path := %s; gp_new_line := %s; gp_old_line := %s |})", coqStr(nn.OldPath), coqStr(nn.NewPath), optLine(nn.NewLine), optLine(nn.OldLine))
 		}
-		lp := nn.NewPath
-		if lp == "" {
-			lp = nn.OldPath
-		}
-		line := nn.NewLine
-		if line <= 0 {
-			line = nn.OldLine
-		}
-		out = append(out, coqEC(lp, line, nn.Body))
+		out = append(out, fmt.Sprintf("{| gn_system := %s; gn_mine := %s; gn_pos := %s; gn_body := %s |}", coqBool(nn.System), coqBool(nn.AuthorID == 7), pos, coqStr(nn.Body)))
 	}
 	return out
 }
 
-func ghView(cs []ghComment) []string {
+// ghRaw: every comment the fake GitHub lists, general ones (no path) included
+func ghRaw(cs []ghComment) []string {
 	var out []string
 	for _, c := range cs {
-		if c.Path == "" {
-			continue
-		}
 		out = append(out, coqEC(c.Path, c.Line, c.Body))
 	}
 	return out
@@ -354,12 +356,26 @@ func c17GitLabScenario(r *rand.Rand, rep *runReport, cw *caseWriter, cid int, k 
 		glNote{DiscID: "f2", NoteID: 92, AuthorID: 7, System: true, Body: "system"},
 		glNote{DiscID: "f3", NoteID: 93, AuthorID: 7, Body: "general note of pint"},
 	)
+	// other people's notes at the very place and with the very text of pint's pending comments (List must not show them:
+	// they neither cover the problem nor are pint's to delete), a note of pint's that only has an old path / old line
+	var foreignIDs []int
+	for i, p := range pend {
+		if r.Intn(4) == 0 {
+			id := 80 - i
+			f.notes = append(f.notes, glNote{DiscID: fmt.Sprintf("x%d", id), NoteID: id, AuthorID: 99, Body: p.Text, HasPos: true, OldPath: p.Path, NewPath: p.Path, NewLine: p.Line})
+			foreignIDs = append(foreignIDs, id)
+		}
+	}
+	if r.Intn(3) == 0 {
+		f.notes = append(f.notes, glNote{DiscID: "f5", NoteID: 95, AuthorID: 7, Body: "old comment on a removed file", HasPos: true, OldPath: "rules/gone.yml", OldLine: 2})
+		sc.Initial = append(sc.Initial, "stale-old-path-only")
+	}
 	stale := r.Intn(2) == 0
 	if stale {
 		f.notes = append(f.notes, glNote{DiscID: "f4", NoteID: 94, AuthorID: 7, Body: "stale comment", HasPos: true, OldPath: path, NewPath: path, NewLine: 4})
 		sc.Initial = append(sc.Initial, "stale")
 	}
-	store0 := glView(f.notes)
+	store0 := glRaw(f.notes)
 	srv := httptest.NewServer(f)
 	defer srv.Close()
 	gl, err := reporter.NewGitLabReporter("v0", "branch", srv.URL, 60*time.Second, "token", 1, budget)
@@ -386,7 +402,7 @@ func c17GitLabScenario(r *rand.Rand, rep *runReport, cw *caseWriter, cid int, k 
 				posts++
 			}
 		}
-		sc.Rounds = append(sc.Rounds, c17SrvRound{Posts: posts, Deletes: len(f.deletes), Store: len(f.notes), View: glView(f.notes)})
+		sc.Rounds = append(sc.Rounds, c17SrvRound{Posts: posts, Deletes: len(f.deletes), Store: len(f.notes), View: glRaw(f.notes)})
 	}
 	sc.Store = f.notes
 	cw.add(c17ServerCase(cid, true, path, diff, budget, pend, store0, sc.Rounds))
@@ -398,7 +414,7 @@ func c17GitLabScenario(r *rand.Rand, rep *runReport, cw *caseWriter, cid int, k 
 	}
 	last := sc.Rounds[len(sc.Rounds)-1]
 	// foreign / system / general notes untouched
-	for _, id := range []int{91, 92, 93} {
+	for _, id := range append([]int{91, 92, 93}, foreignIDs...) {
 		found := false
 		for _, nn := range f.notes {
 			if nn.NoteID == id {
@@ -457,7 +473,10 @@ func c17GitHubScenario(r *rand.Rand, rep *runReport, cw *caseWriter, cid int, k 
 	sc := c17SrvScenario{Platform: "github", Diff: diff, Path: path, Budget: budget, Reports: reps, Pending: pend}
 	f.next = 100
 	f.comments = append(f.comments, ghComment{ID: 91, Path: path, Line: 3, Body: "a human wrote this"})
-	store0 := ghView(f.comments)
+	if r.Intn(2) == 0 {
+		f.comments = append(f.comments, ghComment{ID: 92, Body: "a comment without a path"})
+	}
+	store0 := ghRaw(f.comments)
 	srv := httptest.NewServer(f)
 	defer srv.Close()
 	gh, err := reporter.NewGithubReporter(context.Background(), "v0", srv.URL, srv.URL, 60*time.Second, "token", "o", "r", 1, budget, "HEAD", false)
@@ -478,7 +497,7 @@ func c17GitHubScenario(r *rand.Rand, rep *runReport, cw *caseWriter, cid int, k 
 			rep.fail(fmt.Sprintf("srv%d", k), "GitHub: Submit failed against the fake API: "+err.Error(), sc)
 			return
 		}
-		sc.Rounds = append(sc.Rounds, c17SrvRound{Posts: len(f.posts), Store: len(f.comments), View: ghView(f.comments)})
+		sc.Rounds = append(sc.Rounds, c17SrvRound{Posts: len(f.posts), Store: len(f.comments), View: ghRaw(f.comments)})
 	}
 	sc.Store = f.comments
 	cw.add(c17ServerCase(cid, false, path, diff, budget, pend, store0, sc.Rounds))
